@@ -40,9 +40,9 @@ def main():
     p = os.path.join(V, 'DESIGN.md')
     s = open(p).read()
     for key, text in (('findings', findings_table()), ('seeded', seeded_table())):
-        pat = re.compile(rf'(<!-- BEGIN {key} -->\n).*?(\n<!-- END {key} -->)', re.S)
+        pat = re.compile(rf'(<!-- BEGIN {key} -->\n).*?(<!-- END {key} -->)', re.S)
         if pat.search(s):
-            s = pat.sub(lambda m: m.group(1) + text + m.group(2), s)
+            s = pat.sub(lambda m: m.group(1) + text + '\n' + m.group(2), s)
     open(p, 'w').write(s)
 
 
